@@ -34,6 +34,10 @@ HOST_ATTRS = [
 ]
 
 
+# a scalar attribute pattern against a list attribute raises TypeError before repair C06-F6: generated only when
+# that finding is listed as fixed (set by c06.check_fixed_findings)
+ALLOW_SCALAR_VS_LIST_ATTR = False
+
 # --------------------------------------------------------------------------- patterns
 
 
@@ -315,7 +319,8 @@ def instantiate(p, rng, fidelity=0.93):
                 elif r < fidelity + 0.04:
                     cand = [h for h in HOST_ATTRS if h[0] == name]
                     # a scalar-number pattern against a list attribute raises TypeError (known finding): keep out
-                    cand = [h for h in cand if not (isinstance(val, int) and h[1] in ("is", "fs", "ss"))]
+                    if not ALLOW_SCALAR_VS_LIST_ATTR:
+                        cand = [h for h in cand if not (isinstance(val, int) and h[1] in ("is", "fs", "ss"))]
                     if cand:
                         attrs.append(list(copy.deepcopy(rng.choice(cand))))
             else:
